@@ -70,3 +70,42 @@ pub proof fn lemma_commented_concat(a: Seq<char>, b: Seq<char>)
     assert forall|i: int| 0 <= i < l.len() implies comment_line(#[trigger] l[i]) by { if i < la.len() { assert(l[i] == la[i]); } else { assert(l[i] == lb[i - la.len()]); } }
     assert(flatten(l) == a + b);
 }
+
+// ---- block-comment languages (TypeScript `/** .. */`): the text is  indentation + `/*` + body + `*/` + LF  and the body cannot close it
+pub open spec fn has_close(s: Seq<char>) -> bool { exists|i: int| 0 <= i < s.len() - 1 && #[trigger] s[i] == '*' && s[i + 1] == '/' }
+pub open spec fn open_mark() -> Seq<char> { seq!['/', '*'] }
+pub open spec fn close_mark() -> Seq<char> { seq!['*', '/'] }
+/// C15 (block comment): every byte between the opening `/*` and the closing `*/` belongs to the comment because no `*/` occurs before the end
+pub open spec fn block_commented(t: Seq<char>) -> bool {
+    exists|ws: Seq<char>, body: Seq<char>| #[trigger] wit2(ws, body) && all_tabs(ws) && !has_close(body)
+        && t == ws + open_mark() + body + close_mark() + lf()
+}
+pub proof fn lemma_no_close_concat(a: Seq<char>, b: Seq<char>)
+    requires !has_close(a), !has_close(b), !(a.len() > 0 && b.len() > 0 && a.last() == '*' && b[0] == '/')
+    ensures !has_close(a + b)
+{
+    let c = a + b;
+    assert forall|i: int| 0 <= i < c.len() - 1 && #[trigger] c[i] == '*' implies c[i + 1] != '/' by {
+        if i < a.len() - 1 { assert(c[i] == a[i]); assert(c[i + 1] == a[i + 1]); }
+        else if i == a.len() - 1 { assert(c[i] == a.last()); assert(c[i + 1] == b[0]); }
+        else { assert(c[i] == b[i - a.len()]); assert(c[i + 1] == b[i - a.len() + 1]); }
+    }
+}
+/// indentation contains neither `*` nor `/`
+pub proof fn lemma_tabs_no_close(s: Seq<char>)
+    requires all_tabs(s)
+    ensures !has_close(s), s.len() > 0 ==> (s.last() != '*' && s[0] != '/')
+{}
+pub proof fn lemma_join_no_close(v: Seq<Seq<char>>, sep: Seq<char>)
+    requires forall|i: int| 0 <= i < v.len() ==> !has_close(#[trigger] v[i]), !has_close(sep), sep.len() > 0, sep[0] != '/', sep.last() != '*'
+    ensures !has_close(join(v, sep))
+    decreases v.len()
+{
+    if v.len() <= 1 { } else {
+        lemma_join_no_close(v.drop_last(), sep);
+        let a = join(v.drop_last(), sep);
+        lemma_no_close_concat(a, sep);
+        assert((a + sep).last() == sep.last());
+        lemma_no_close_concat(a + sep, v.last());
+    }
+}
